@@ -89,10 +89,14 @@ def images_old_src(sym, layout, with_subvariant):
             bin_dicts[(variant, a)] = d
         if has_src:
             d = image_dict(sym, "%s_src" % variant, "src")
+            d2 = image_dict(sym, "%s_src2" % variant, "src")          # a second source image (e.g. a two-disc source set)
+            d2["disc_number"] = 2
             if not with_subvariant:
                 del d["subvariant"]
-            images[variant]["src"] = [d]
+                del d2["subvariant"]
+            images[variant]["src"] = [d, d2]
             src_dicts[variant] = d
+            src_dicts[variant + "/2"] = d2
     if not with_subvariant:
         sym.assume(minor == 0)          # subvariant is mandatory from 1.1
     doc = {"header": {"version": "%d.%d" % (major, minor), "type": "productmd.images"},
@@ -108,13 +112,14 @@ def images_old_src(sym, layout, with_subvariant):
         sym.check("arches[%s]" % variant, sorted(im.images[variant].keys()) == sorted(arches))
         for a in arches:
             cell = list(im.images[variant][a])
-            sym.check("count[%s,%s]" % (variant, a), len(cell) == (2 if has_src else 1))
+            sym.check("count[%s,%s]" % (variant, a), len(cell) == (3 if has_src else 1))
             sym.check("binary-kept[%s,%s]" % (variant, a), sym.or_(*[sym.same(g.path, bin_dicts[(variant, a)]["path"]) for g in cell]))
             if has_src:
-                s = src_dicts[variant]
-                sym.check("source-refiled[%s,%s]" % (variant, a),
-                          sym.or_(*[sym.and_(sym.same(g.path, s["path"]), g.arch == "src", sym.same(g.checksums, s["checksums"]),
-                                             sym.same(g.size, s["size"]), sym.same(g.mtime, s["mtime"])) for g in cell]))
+                for key in (variant, variant + "/2"):
+                    s = src_dicts[key]
+                    sym.check("source-refiled[%s,%s]" % (key, a),
+                              sym.or_(*[sym.and_(sym.same(g.path, s["path"]), g.arch == "src", sym.same(g.checksums, s["checksums"]),
+                                                 sym.same(g.size, s["size"]), sym.same(g.mtime, s["mtime"])) for g in cell]))
     text = im.dumps()
     out = json.loads(text)
     sym.cover("rewritten")
